@@ -145,7 +145,10 @@ Proof.
   pose proof (sem_step_spec c s e Hinv) as Hs. destruct Hinv as (Ht & Hnd & Hc).
   split; [lia|].
   destruct e as [id [|]|id].
-  - destruct Hs as (H1 & H2 & H3 & _). fold v in H1, H2, H3. rewrite H1, H2, H3, He. repeat split; try lia.
+  - destruct Hs as (H1 & H2 & H3 & _). fold v in H1, H2, H3. rewrite H3, He.
+    split; [|split; [|reflexivity]].
+    + rewrite H1. lia.
+    + rewrite H2. lia.
   - rewrite Hs. split; reflexivity.
   - apply Hs.
 Qed.
